@@ -10,6 +10,7 @@ import (
 	r "reflect"
 	"unsafe"
 
+	"github.com/cosmos72/gomacro/base/untyped"
 	xr "github.com/cosmos72/gomacro/xreflect"
 )
 
@@ -592,5 +593,66 @@ func VH_C05_rangeStringOuterValue() {
 	}
 	vhAssert(got == wantLast[which], "the outer variable holds the last rune")
 	_ = before
+	vhReach("end")
+}
+
+
+// select { case ch <- v: }: the value may be an untyped constant, a typed constant or a computed value assignable to
+// the channel's element type; the compiled clause sends that value converted to the element type
+func VH_C05_selectSendValue() {
+	c := vhComp()
+	if vhSymbolic() {
+		u := &xr.Universe{}
+		u.BasicTypes = make([]xr.Type, int(r.UnsafePointer)+1)
+		u.BasicTypes[r.Int] = vhTypeOf(int(0))
+		u.BasicTypes[r.Int32] = vhTypeOf(int32(0))
+		u.BasicTypes[r.Bool] = vhTypeOf(false)
+		u.ReflectTypes = map[r.Type]xr.Type{rtypeOfUntypedLit: vhTypeOf(UntypedLit{})}
+		c.CompGlobals.Universe = u
+	}
+	var ch chan int32 // only its type matters: the clause is compiled, not executed
+	x := vhI32("x")
+	shape := vhPick("the sent value is an untyped constant / a typed constant / computed", 3)
+	var esend *Expr
+	switch shape {
+	case 0:
+		k := vhConstInt("k")
+		vhAssume(vhConstFits(k, -1<<31, 1<<31-1))
+		x = int32(vhConstLow64(k))
+		esend = c.exprUntypedLit(untyped.Int, k)
+	case 1:
+		esend = vhExprValue(vhTypeOf(x), x)
+	default:
+		esend = exprFun(vhTypeOf(x), func(env *Env) int32 { return x })
+	}
+	nchan, nval := &ast.Ident{Name: "ch"}, &ast.Ident{Name: "v"}
+	vhArgExprs = map[ast.Expr]*Expr{
+		nchan: exprX1(vhTypeOf(ch), func(env *Env) xr.Value { return xr.ValueOf(ch) }),
+		nval:  esend,
+	}
+	clause := &ast.CommClause{Comm: &ast.SendStmt{Chan: nchan, Value: nval}}
+	brk := 0
+	c.Loop = &LoopInfo{Break: &brk}
+	var entry selectEntry
+	failed := false
+	func() {
+		defer func() {
+			if recover() != nil {
+				failed = true
+			}
+		}()
+		entry = c.selectCase(clause, nil)
+	}()
+	vhAssert(!failed, "a send clause whose value is assignable to the element type compiles (also for constants)")
+	if failed {
+		return
+	}
+	vhAssert(entry.Dir == r.SelectSend && entry.Chan != nil && entry.Send != nil, "a send entry")
+	if entry.Send == nil {
+		return
+	}
+	v := entry.Send(&Env{})
+	got, ok := v.Interface().(int32)
+	vhAssert(ok && got == x, "the value sent is the operand converted to the channel's element type")
 	vhReach("end")
 }
